@@ -159,6 +159,12 @@ func isRWMutex(t types.Type) bool {
 
 // refLike: values of this type can alias shared memory
 func refLike(t types.Type) bool {
+	if _, ok := t.(*types.TypeParam); ok {
+		// an element / key / value of the client's type: the container copies it and never writes
+		// through it (this test must come first: the underlying type of a type parameter is its
+		// constraint interface)
+		return false
+	}
 	switch u := t.Underlying().(type) {
 	case *types.Pointer, *types.Slice, *types.Map, *types.Chan, *types.Interface, *types.Signature:
 		return true
@@ -171,9 +177,6 @@ func refLike(t types.Type) bool {
 		return false
 	case *types.Array:
 		return refLike(u.Elem())
-	}
-	if _, ok := t.(*types.TypeParam); ok {
-		return false // element values are copied
 	}
 	return false
 }
@@ -240,6 +243,8 @@ type summary struct {
 	ext     bool
 	fresh   bool // every returned reference is fresh (new/&T{}/make) — used for locals
 	escapes map[origin]bool
+	// parameters (-1 = receiver) whose own value (a reference) may be returned as such
+	retParams map[int]bool
 }
 
 // ---------- the per-function walker ----------
@@ -351,7 +356,19 @@ func (c *ctx) origins(e ast.Expr) oset {
 			if _, isB := c.info().ObjectOf(id).(*types.Builtin); isB {
 				switch id.Name {
 				case "append":
-					for _, a := range x.Args {
+					for i, a := range x.Args {
+						if i > 0 {
+							// elements are copied into the result: only reference-like ones alias anything
+							et := c.typeOf(a)
+							if x.Ellipsis.IsValid() && i == len(x.Args)-1 && et != nil {
+								if sl, ok := et.Underlying().(*types.Slice); ok {
+									et = sl.Elem()
+								}
+							}
+							if et != nil && !refLike(et) {
+								continue
+							}
+						}
 						res.add(c.origins(a))
 					}
 				case "new", "make":
@@ -362,6 +379,43 @@ func (c *ctx) origins(e ast.Expr) oset {
 		callee := c.calleeOf(x)
 		if callee != nil {
 			if s := c.w.summ[callee]; s != nil && s.fresh {
+				return res
+			}
+		}
+		if callee != nil && !c.w.locking[callee] {
+			if sm := c.w.summ[callee]; sm != nil {
+				// the callee's own return statements say what its result may point into: parameters
+				// handed back as such (retParams) and fields of parameters (escapes)
+				actual := func(p int) oset {
+					out := oset{}
+					if p == -1 {
+						if se, ok := x.Fun.(*ast.SelectorExpr); ok {
+							if _, isSel := c.info().Selections[se]; isSel {
+								out.add(c.addrOrigins(se.X))
+								out.add(c.origins(se.X))
+							}
+						}
+						return out
+					}
+					if p >= 0 && p < len(x.Args) {
+						out.add(c.origins(x.Args[p]))
+					} else if p >= len(x.Args) && len(x.Args) > 0 {
+						out.add(c.origins(x.Args[len(x.Args)-1])) // variadic tail
+					}
+					return out
+				}
+				for p := range sm.retParams {
+					res.add(actual(p))
+				}
+				for eo := range sm.escapes {
+					for ao := range actual(eo.param) {
+						if g, ok := c.inst[ao.param]; ok && ao.field == nil && g.loc(eo.field) >= 0 {
+							res[origin{param: ao.param, field: eo.field}] = true
+						} else {
+							res[ao] = true
+						}
+					}
+				}
 				return res
 			}
 		}
@@ -1006,6 +1060,23 @@ func (c *ctx) stmt(s ast.Stmt) string {
 		}
 		return seq(append(pre, "(SIf "+thn+" "+els+")"))
 	case *ast.ForStmt:
+		if hasBranch(x.Body.List) {
+			// break / continue: the body is split into the paths that complete an iteration (fall off
+			// the end, or `continue`) and the paths that leave the loop (`break`)
+			init := c.stmt(x.Init)
+			cond := c.expr(x.Cond)
+			p := c.flowBlock(x.Body.List)
+			post := c.stmt(x.Post)
+			loop := "SSkip"
+			if iter, ok := alt(p.n, p.hn, p.c, p.hc); ok {
+				loop = "(SLoop " + seq([]string{cond, iter, post}) + ")"
+			}
+			exit := cond
+			if p.hb {
+				exit = "(SIf " + seq([]string{cond, p.b}) + " " + seq([]string{cond}) + ")"
+			}
+			return seq([]string{init, loop, exit})
+		}
 		body := seq([]string{c.expr(x.Cond), c.block(x.Body.List), c.stmt(x.Post)})
 		return seq([]string{c.stmt(x.Init), "(SLoop " + body + ")", c.expr(x.Cond)})
 	case *ast.RangeStmt:
@@ -1034,17 +1105,28 @@ func (c *ctx) stmt(s ast.Stmt) string {
 				}
 			}
 		}
+		if hasBranch(x.Body.List) {
+			p := c.flowBlock(x.Body.List)
+			ps = append(ps, acc)
+			if iter, ok := alt(p.n, p.hn, p.c, p.hc); ok {
+				ps = append(ps, "(SLoop "+seq([]string{acc, iter})+")")
+			}
+			if p.hb {
+				ps = append(ps, "(SIf "+seq([]string{acc, p.b})+" SSkip)")
+			}
+			return seq(ps)
+		}
 		body := seq([]string{acc, c.block(x.Body.List)})
 		ps = append(ps, acc, "(SLoop "+body+")")
 		return seq(ps)
-	case *ast.SwitchStmt:
-		pre := []string{c.stmt(x.Init), c.expr(x.Tag)}
-		return seq(append(pre, c.cases(x.Body.List)))
-	case *ast.TypeSwitchStmt:
-		pre := []string{c.stmt(x.Init), c.stmt(x.Assign)}
-		return seq(append(pre, c.cases(x.Body.List)))
-	case *ast.SelectStmt:
-		return seq([]string{act("AExt"), c.cases(x.Body.List)})
+	case *ast.SwitchStmt, *ast.TypeSwitchStmt, *ast.SelectStmt:
+		// (outside a loop body that is translated by flowBlock) a `break` leaves the switch
+		p := c.flowStmt(s)
+		t, _ := alt(p.n, p.hn, p.c, p.hc) // a stray continue cannot occur here; kept as a path if it does
+		if !p.hn && !p.hc {
+			return "SSkip"
+		}
+		return t
 	case *ast.ReturnStmt:
 		var ps []string
 		for _, r := range x.Results {
@@ -1132,6 +1214,8 @@ func (c *ctx) stmt(s ast.Stmt) string {
 	case *ast.LabeledStmt:
 		return c.stmt(x.Stmt)
 	case *ast.BranchStmt:
+		// unlabeled break / continue are handled by flowStmt; what arrives here is a labeled branch,
+		// a goto or a fallthrough
 		if c.depth == 0 && c.structural {
 			c.w.warns = append(c.w.warns, fmt.Sprintf("%s: %s treated as fall-through", c.fd.obj.FullName(), x.Tok))
 		}
@@ -1140,6 +1224,169 @@ func (c *ctx) stmt(s ast.Stmt) string {
 		return "SSkip"
 	}
 	return "SSkip"
+}
+
+// ---------- break / continue ----------
+//
+// paths is a statement (list) translated into up to three alternatives: the executions that fall off
+// its end (n), the ones that end in a `continue` of the enclosing loop (c) and the ones that end in a
+// `break` of the enclosing loop or switch (b).  A `return` is an ordinary term (SRet ends the function
+// in the semantics of Lock.v), so it lives in n.
+type paths struct {
+	n, c, b    string
+	hn, hc, hb bool
+}
+
+func alt(a string, ha bool, b string, hb bool) (string, bool) {
+	switch {
+	case ha && hb:
+		return "(SIf " + a + " " + b + ")", true
+	case ha:
+		return a, true
+	case hb:
+		return b, true
+	}
+	return "", false
+}
+
+// hasBranch: does the list contain an unlabeled break or continue that binds to the statement whose
+// body it is (nested loops and function literals bind their own)?
+func hasBranch(list []ast.Stmt) bool {
+	found := false
+	var walk func(n ast.Node) bool
+	walk = func(n ast.Node) bool {
+		switch x := n.(type) {
+		case *ast.ForStmt, *ast.RangeStmt, *ast.FuncLit:
+			return false
+		case *ast.BranchStmt:
+			if x.Label == nil && (x.Tok == token.BREAK || x.Tok == token.CONTINUE) {
+				found = true
+			}
+		}
+		return !found
+	}
+	for _, s := range list {
+		ast.Inspect(s, walk)
+	}
+	return found
+}
+
+func seqPaths(a, r paths) paths {
+	var out paths
+	if a.hn && r.hn {
+		out.n, out.hn = seq([]string{a.n, r.n}), true
+	}
+	out.c, out.hc = alt(a.c, a.hc, seq([]string{a.n, r.c}), a.hn && r.hc)
+	out.b, out.hb = alt(a.b, a.hb, seq([]string{a.n, r.b}), a.hn && r.hb)
+	return out
+}
+
+func prefixPaths(pre string, p paths) paths {
+	if p.hn {
+		p.n = seq([]string{pre, p.n})
+	}
+	if p.hc {
+		p.c = seq([]string{pre, p.c})
+	}
+	if p.hb {
+		p.b = seq([]string{pre, p.b})
+	}
+	return p
+}
+
+func altPaths(a, b paths) paths {
+	var out paths
+	out.n, out.hn = alt(a.n, a.hn, b.n, b.hn)
+	out.c, out.hc = alt(a.c, a.hc, b.c, b.hc)
+	out.b, out.hb = alt(a.b, a.hb, b.b, b.hb)
+	return out
+}
+
+func (c *ctx) flowBlock(list []ast.Stmt) paths {
+	ps := make([]paths, len(list))
+	for i, s := range list { // source order: the translation is flow-sensitive
+		ps[i] = c.flowStmt(s)
+	}
+	acc := paths{n: "SSkip", hn: true}
+	for i := len(ps) - 1; i >= 0; i-- {
+		acc = seqPaths(ps[i], acc)
+	}
+	return acc
+}
+
+func (c *ctx) flowStmt(s ast.Stmt) paths {
+	switch x := s.(type) {
+	case *ast.BranchStmt:
+		if x.Label == nil && x.Tok == token.CONTINUE {
+			return paths{c: "SSkip", hc: true}
+		}
+		if x.Label == nil && x.Tok == token.BREAK {
+			return paths{b: "SSkip", hb: true}
+		}
+	case *ast.BlockStmt:
+		return c.flowBlock(x.List)
+	case *ast.LabeledStmt:
+		return c.flowStmt(x.Stmt)
+	case *ast.IfStmt:
+		pre := seq([]string{c.stmt(x.Init), c.expr(x.Cond)})
+		thn := c.flowBlock(x.Body.List)
+		els := paths{n: "SSkip", hn: true}
+		if x.Else != nil {
+			els = c.flowStmt(x.Else)
+		}
+		return prefixPaths(pre, altPaths(thn, els))
+	case *ast.SwitchStmt:
+		pre := seq([]string{c.stmt(x.Init), c.expr(x.Tag)})
+		return prefixPaths(pre, c.flowCases(x.Body.List))
+	case *ast.TypeSwitchStmt:
+		pre := seq([]string{c.stmt(x.Init), c.stmt(x.Assign)})
+		return prefixPaths(pre, c.flowCases(x.Body.List))
+	case *ast.SelectStmt:
+		return prefixPaths(act("AExt"), c.flowCases(x.Body.List))
+	}
+	return paths{n: c.stmt(s), hn: true}
+}
+
+// flowCases: the clauses of a switch / select as alternatives; a `break` inside a clause leaves the
+// switch, i.e. joins the executions that fall off its end; a `continue` stays a `continue`.
+func (c *ctx) flowCases(list []ast.Stmt) paths {
+	var out paths
+	hasDefault := false
+	first := true
+	add := func(p paths) {
+		if p.hb { // break = leave the switch
+			p.n, p.hn = alt(p.n, p.hn, p.b, true)
+			p.b, p.hb = "", false
+		}
+		if first {
+			out, first = p, false
+			return
+		}
+		out = altPaths(out, p)
+	}
+	for _, cl := range list {
+		switch cc := cl.(type) {
+		case *ast.CaseClause:
+			var ps []string
+			for _, e := range cc.List {
+				ps = append(ps, c.expr(e))
+			}
+			if cc.List == nil {
+				hasDefault = true
+			}
+			add(prefixPaths(seq(ps), c.flowBlock(cc.Body)))
+		case *ast.CommClause:
+			pre := c.stmt(cc.Comm)
+			if cc.Comm == nil {
+				hasDefault = true
+			}
+			add(prefixPaths(pre, c.flowBlock(cc.Body)))
+		}
+	}
+	if !hasDefault || first {
+		add(paths{n: "SSkip", hn: true})
+	}
+	return out
 }
 
 func (c *ctx) cases(list []ast.Stmt) string {
@@ -1430,7 +1677,7 @@ func (w *world) findLocking() {
 
 func (w *world) summarise() {
 	for fn := range w.funcs {
-		w.summ[fn] = &summary{effs: map[effect]bool{}, escapes: map[origin]bool{}}
+		w.summ[fn] = &summary{effs: map[effect]bool{}, escapes: map[origin]bool{}, retParams: map[int]bool{}}
 	}
 	// returns-fresh: every return statement returns a composite literal address, new, make,
 	// a call to a fresh function, or a non-reference value
@@ -1475,6 +1722,10 @@ func (w *world) summarise() {
 						for o := range c.origins(r) {
 							if o.field != nil && !s.escapes[o] {
 								s.escapes[o] = true
+								changed = true
+							}
+							if o.field == nil && !s.retParams[o.param] {
+								s.retParams[o.param] = true
 								changed = true
 							}
 						}
@@ -1682,7 +1933,7 @@ func main() {
 	}
 	out.WriteString("Definition all_methods : list (string * sk) := [\n  " + strings.Join(entries, ";\n  ") + "\n].\n")
 	for _, wmsg := range w.warns {
-		out.WriteString("(* warning: " + wmsg + " *)\n")
+		out.WriteString("(* warning: " + strings.NewReplacer("(*", "( *", "*)", "* )").Replace(wmsg) + " *)\n")
 	}
 	if err := os.WriteFile(os.Args[1], []byte(out.String()), 0o644); err != nil {
 		panic(err)
